@@ -247,6 +247,11 @@ def nonempty_fact_c(q):
     return ('nonempty:' + q, m)
 
 
+def _capacity_by_level(ctx, prog):
+    from props import c02
+    c02.level_plumbing(ctx, prog)
+
+
 def run(ctx):
     prog = ctx.prog('ssa')
     A = conc.Analysis(prog)
@@ -262,3 +267,6 @@ def run(ctx):
                                                                   'encoder_alloc_size'}, allowed_globals={'bs100k'})
     codecrules.schedule_values_confined(ctx, prog, 'C03', ('compress',))
     writer_order(ctx, prog, A)
+    # the block capacity, like the chunk size, is a function of the level alone (an encoder sized by the file size
+    # makes FILE operands and pipes differ)
+    _capacity_by_level(ctx, prog)
